@@ -279,6 +279,69 @@ theorem clock_reads_accounted :
       (fun o => clockLoggingOnly.contains o.key || clockResultAffecting.contains o.key) = true := by
   decide +kernel
 
+/-! ## (c) goroutines: every `go` statement of the reachable code, with what its closure shares
+
+The translator lists, for each `go` statement, the variables the goroutine shares with the function that starts it and how it
+uses each one. The expectation below is hand-written, with the reason why the *result* does not depend on the schedule;
+`goroutine_sites_as_classified` is decided against the generated list, so a new goroutine, a new shared variable in a closure
+(e.g. a shared `rejected` flag tested by every worker) or a changed use breaks the build. -/
+
+/-- (site, shared variables and their uses) -/
+def expectedGoSites : List (List Nat × List (List Nat)) := [
+  -- block fetching (not block execution): hands the fetched block to a handler
+  (str% "chaincore/chain/block_fetcher.go:GetNotarizedBlock",
+    [str% "arg:ctx", str% "arg:nb", str% "call:c.fetchedNotarizedBlockHandler.NotarizedBlockFetched"]),
+  -- the contract call runs in one goroutine; the caller waits for its single result or the timeout (see clockResultAffecting)
+  (str% "chaincore/chain/state.go:ExecuteSmartContract", [str% "balances:read", str% "resultC:send", str% "txn:read"]),
+  -- workers only send (index, item) / (index, notPresent) / internal error; reduction: getItems_order_independent
+  (str% "chaincore/chain/state/state_context.go:GetItemsByIDs",
+    [str% "balances:read", str% "errC:send", str% "getItem:read", str% "itemC:send", str% "stateErrC:send", str% "wg:call Done"]),
+  -- state sync worker (not block execution)
+  (str% "chaincore/chain/worker.go:SyncMissingNodes", [str% "c:send", str% "keys:read", str% "round:read", str% "wc:read"]),
+  -- networking
+  (str% "chaincore/node/n2n_request.go:sendRequestConcurrent", [str% "ctx:read", str% "handler:read", str% "nodeC:send", str% "wg:call Done"]),
+  -- workers send (index, stake pool), re-indexed by the caller (keyed writes, S1); an *error* is taken in arrival order —
+  -- all workers fail the same way only when a stake pool is missing (`value not present`, same text); not replayed
+  (str% "smartcontract/storagesc/block_reward.go:blobberBlockRewards",
+    [str% "balances:read", str% "errC:send", str% "spC:send", str% "ssc:call getStakePool", str% "wg:call Done"]),
+  -- worker i reads ticket i, writes errors[i] and validators[i] only, adds to two atomic counters; the caller returns the first
+  -- error in index order: verifyChallengeTickets_schedule_independent (counters: s2_int_add)
+  (str% "smartcontract/storagesc/challenge.go:verifyChallengeTickets",
+    [str% "balances:read", str% "challenge:read", str% "errors:index-write[i]", str% "failure:atomic.AddInt32",
+     str% "success:atomic.AddInt32", str% "validators:index-write[i]", str% "wg:call Done"])]
+
+theorem goroutine_sites_as_classified :
+    Generated.C06.goSites.map (fun g => (g.key, g.ckeys)) = expectedGoSites := by
+  decide +kernel
+
+/-- **verifyChallengeTickets**: the error `challenge_response` returns — the transaction output — is the error of the
+lowest-index bad ticket, for every completion order `π` of the per-ticket goroutines. -/
+theorem verifyChallengeTickets_schedule_independent {ε : Type} (check : Nat → Option ε) (n : Nat) {π : List Nat}
+    (hp : π.Perm (List.range n)) :
+    pickFirst n (runWorkers check π) = pickFirst n (runWorkers check (List.range n)) := by
+  rw [runWorkers_perm check hp]
+
+/-- … and that error is a function of the tickets alone: the first `check i ≠ none` in index order -/
+theorem verifyChallengeTickets_result {ε : Type} (check : Nat → Option ε) (n : Nat) {π : List Nat}
+    (hp : π.Perm (List.range n)) : pickFirst n (runWorkers check π) = (List.range n).findSome? check := by
+  rw [runWorkers_perm check hp]
+  unfold pickFirst
+  apply findSome?_congr'
+  intro i hi
+  rw [runWorkers_apply]
+  cases h : check i <;> simp [hi]
+
+def twoBadTickets : Nat → Option Nat := fun i => if i = 1 then some 1 else if i = 5 then some 5 else none
+
+/-- recorded negation: with a shared early-out flag (worker skips its ticket once any ticket was rejected) the returned error
+depends on the completion order — tickets #1 and #5 bad: in-order completion reports #1, reverse completion reports #5.
+This is why a new shared variable in the closure must not pass unnoticed. -/
+theorem early_out_flag_is_schedule_dependent :
+    pickFirst 6 (runWorkersEarlyOut twoBadTickets [0, 1, 2, 3, 4, 5]).2 = some 1 ∧
+    pickFirst 6 (runWorkersEarlyOut twoBadTickets [5, 4, 3, 2, 1, 0]).2 = some 5 ∧
+    pickFirst 6 (runWorkers twoBadTickets [5, 4, 3, 2, 1, 0]) = some 1 := by
+  decide
+
 /-! ## (c) scheduling: goroutine results -/
 
 /-- functions that start goroutines or `select` in reachable code (hand-checked):
